@@ -121,6 +121,17 @@ PullBad ==
         /\ Follow(e, <<>>)
   /\ UNCHANGED <<C, issued, recent, P>>
 
-PullNext == PullReset \/ StoreStep \/ PullDequeue \/ PullLease \/ PullBad
+\* the store failed a single-lease mutation with a transient error (busy database, I/O error): the API reports a server
+\* error, nothing changed, and the operation is NOT remembered as completed - the consumer's retry (the next event) is
+\* judged by PullLease against the unchanged state, so it has to reach the store
+PullFault ==
+  /\ IsEvent("PullFault")
+  /\ LET e == Trace[l]
+     IN /\ Chk("store_fault_5xx", e.r.status >= 500)
+        /\ Chk("store_fault_no_effect", e.post = S.msgs)
+        /\ Follow(e, <<>>)
+  /\ UNCHANGED <<C, issued, recent, P>>
+
+PullNext == PullReset \/ StoreStep \/ PullDequeue \/ PullLease \/ PullBad \/ PullFault
 PullSpec == PullInit /\ [][PullNext]_pvars
 =============================================================================
